@@ -55,13 +55,20 @@ class NumpyConnector(BuiltinConnector):
     hafnian = instancemethod(hafnian_with_reduction)
     loop_hafnian = instancemethod(loop_hafnian_with_reduction)
     loop_hafnian_batch = instancemethod(loop_hafnian_with_reduction_batch)
-    calculate_interferometer_on_fock_space = instancemethod(
-        calculate_interferometer_on_fock_space
-    )
     calculate_interferometer_on_fermionic_fock_space = instancemethod(
         calculate_interferometer_on_fermionic_fock_space
     )
     density_matrix_from_gaussian = instancemethod(density_matrix_from_gaussian)
+
+    def calculate_interferometer_on_fock_space(self, interferometer, helper_indices):
+        if len(helper_indices[0]) == 0:
+            # NOTE: For cutoff <= 2 the helper indices are empty lists, which Numba
+            # cannot type ("cannot compute fingerprint of empty list").
+            return super().calculate_interferometer_on_fock_space(
+                interferometer, helper_indices
+            )
+
+        return calculate_interferometer_on_fock_space(interferometer, helper_indices)
 
     def sqrtm(self, matrix):
         return scipy.linalg.sqrtm(matrix).astype(np.complex128)
